@@ -341,7 +341,10 @@ type UserDelegate struct {
 	State      []byte
 	Merged     []MergedState
 	LocalCalls int
-	Gate       chan struct{} // if set, NotifyMsg blocks until it can receive
+	Gate       chan struct{}
+	// NodeMeta parks on MetaGate (if set) after closing MetaEntered
+	MetaGate    chan struct{}
+	MetaEntered chan struct{} // if set, NotifyMsg blocks until it can receive
 	FillExact  bool          // hand out as much as fits
 	OnMsg      func([]byte)
 }
@@ -360,6 +363,17 @@ type MergedState struct {
 }
 
 func (d *UserDelegate) NodeMeta(limit int) []byte {
+	d.mu.Lock()
+	g, e := d.MetaGate, d.MetaEntered
+	d.MetaEntered = nil
+	d.mu.Unlock()
+	if g != nil {
+		// park the caller (an UpdateNode in flight) until the scenario releases it
+		if e != nil {
+			close(e)
+		}
+		<-g
+	}
 	d.mu.Lock()
 	defer d.mu.Unlock()
 	return append([]byte(nil), d.Meta...)
